@@ -27,6 +27,7 @@ BOUNDS = {
     "grammar": "8 operators x missing operand left/right/both x 12 kinds of other operand (incl. typed field matchers) x 4 contexts x 2 engines (complete), "
     "each evaluated by a selector object that matched a same-name record HAVING the fields before",
     "values": "other operand when it is a field: all ints, all strings <= 2 chars, both booleans, None or any int",
+    "typed": "8 operators x 23 field types (every whitelisted kind incl. lists, nested record, dynamic) x both positions x 2 engines",
     "stream": "3 records of two layouts per source (different type names; the same type name in both orders), 2 sources, field values symbolic",
 }
 STUBS = ["stream level: RecordStreamReader.read / RecordReader hand out prepared records (decoding is C01/C03)"]
@@ -115,6 +116,65 @@ def comparison(expr: str, engine: str, expected: bool):
         except Exception:  # noqa: BLE001
             pass
         return bool(sel.match(rec)) == expected
+
+    return check
+
+
+TYPED_FIELDS = [("net.ipaddress", "ip"), ("net.ipnetwork", "net"), ("command", "cmd"), ("path", "p"), ("uri", "u"), ("digest", "dg"), ("datetime", "dt"), ("bytes", "by"), ("float", "f"),
+                ("string[]", "sl"), ("filesize", "fs"), ("wstring", "ws"), ("dictlist", "dl"), ("unix_file_mode", "m"), ("boolean", "b"), ("uint16", "u16"), ("uint32", "u32"), ("varint", "n"), ("string", "s"),
+                ("net.ipaddress[]", "ipl"), ("stringlist", "stl"), ("record", "rec"), ("dynamic", "dyn")]
+TYPED_CONTAINERS = {"sl", "dl", "ipl", "stl", "net"}  # kinds whose values are containers of operands ('x in r.f' is well-typed)
+
+
+def typed_record():
+    import datetime as _dt
+
+    from flow.record import RecordDescriptor
+
+    D = RecordDescriptor("test/typed", TYPED_FIELDS)
+    In = RecordDescriptor("test/in", [("varint", "k")])
+    return D("1.2.3.4", "10.0.0.0/8", "ls -l", "/a/b", "http://x/y", ("d41d8cd98f00b204e9800998ecf8427e", None, None), _dt.datetime(2020, 1, 1, tzinfo=_dt.timezone.utc), b"x", 1.5, ["a"], 10, "w",
+             [{"a": 1}], 0o644, True, 3, 4, 5, "text", ["1.1.1.1"], ["z"], In(1), 7)
+
+
+def typed_table():
+    """comparisons between a field of every field type and a field the record lacks: (expr, engine)"""
+    rows = []
+    for _, f in TYPED_FIELDS:
+        for op in OPS:
+            for expr in (f"r.{f} {op} r.zz", f"r.zz {op} r.{f}"):
+                for eng in "ic":
+                    if op == "not in" and eng == "c":
+                        continue  # outside the claim (see OUTSIDE)
+                    if op in ("in", "not in") and expr.startswith("r.zz") and (eng == "c" and f not in TYPED_CONTAINERS):
+                        continue  # compiled: 'x in <non-container>' is ill-typed for every record; '<missing> in <text>' is the known finding K1 (asserted in cmp/)
+                    rows.append((expr, eng))
+    return rows
+
+
+def typed(lo: int, hi: int):
+    """Path-exhaustive over the table (a symbolic index selects the comparison; typed values are C-level objects, so there is no value
+    dimension here): every comparison is false and does not raise."""
+    from crosshair.tracers import NoTracing
+    from flow.record.selector import CompiledSelector, Selector
+
+    rows = typed_table()[lo:hi]
+    sels = [(Selector if eng == "i" else CompiledSelector)(expr) for expr, eng in rows]
+    n = len(rows)
+    rec = typed_record()
+
+    def check(i: int) -> bool:
+        """
+        post: _
+        """
+        if not (0 <= i < n):
+            return True
+        sel = None
+        for j in range(n):
+            if i == j:
+                sel = sels[j]
+        with NoTracing():
+            return not bool(sel.match(rec))
 
     return check
 
@@ -237,6 +297,9 @@ def obligations(tier, seed):
     to = 15 if tier == "quick" else 60
     for i, (expr, eng, expected, kind, op, pos) in enumerate(table()):
         obs.append(ob(f"cmp/{eng}/{i}:{expr}", "xh", "comparison", {"expr": expr, "engine": eng, "expected": expected}, timeout=to, group=f"cmp/{eng}", bounds="other operand symbolic where it is a field"))
+    nt = len(typed_table())
+    for lo in range(0, nt, 60):
+        obs.append(ob(f"typed/{lo}", "xh", "typed", {"lo": lo, "hi": min(lo + 60, nt)}, timeout=to * 3, group="typed", bounds=f"comparisons {lo}..{min(lo + 60, nt)} of {nt}: 8 operators x 23 field types x both positions x 2 engines (index symbolic, path-exhaustive)"))
     for i, e in enumerate(HELPERS):
         for eng in "ic":
             obs.append(ob(f"helper/{eng}/{i}:{e}", "xh", "helper", {"expr": e, "engine": eng}, timeout=to, group="helper", bounds="s: all strings <= 2 chars", hunt_only=(("field_equals" in e or "field_contains" in e) and "nocase=False" not in e)))
@@ -268,7 +331,7 @@ def replay(res):
 
     a = res["args"]
     gid = res["id"]
-    engine = a["engine"]
+    engine = a.get("engine", "i")
     cls = Selector if engine == "i" else CompiledSelector
     ename = cls.__name__
     if "/cmp/" in gid or gid.startswith("C08/cmp"):
@@ -297,6 +360,20 @@ def replay(res):
                     "input": {"expr": a["expr"], "engine": engine, "values": vals},
                 }
         return {"reproduced": False, "what": "comparison behaves as specified on the concrete values"}
+    if gid.split("/")[1] == "typed":
+        rec = typed_record()
+        for expr, eng in typed_table()[a["lo"] : a["hi"]]:
+            c = Selector if eng == "i" else CompiledSelector
+            try:
+                got = bool(c(expr).match(rec))
+                raised = None
+            except Exception as e:  # noqa: BLE001
+                got, raised = None, f"{type(e).__name__}: {e}"
+            if raised or got:
+                ftype = dict((n_, t_) for t_, n_ in TYPED_FIELDS)[[tok for tok in expr.replace("r.zz", "").split() if tok.startswith("r.")][0][2:]]
+                return {"reproduced": True, "key": f"C08/typed/{eng}/{ftype}/{expr.split()[1] if expr.split()[1] != 'not' else 'not in'}",
+                        "what": f"{c.__name__}({expr!r}) on a record without field 'zz' ({ftype} field on the other side): " + (f"raised {raised}" if raised else "evaluated to True, expected False"), "input": {"expr": expr, "engine": eng}}
+        return {"reproduced": False, "what": "typed comparisons behave as specified"}
     if "helper" in gid:
         v = cex_args(res, ["s"])
         s = v.get("s", "a")
